@@ -260,6 +260,32 @@ def namespaces(repo, res):
     res.check(ok, "add_symbols", fn.where(), "add_symbols rebuilds every exported unit name in the given registry and adds the registry's own symbols", rid=r4)
 
 
+def rewrite_chain(fn):
+    """the constant str.replace steps the input text goes through before it reaches parse_expr, in order, followed along
+    the names that hold the text (the parameter itself or a local it is copied into): ([(old, new), ...], name handed to
+    parse_expr)"""
+    p0 = fn.params[0]
+    holders = {p0}
+    chain = []
+    last = p0
+    for a in [n for st in fn.body for n in ast.walk(st) if isinstance(n, ast.Assign)]:
+        if not (len(a.targets) == 1 and isinstance(a.targets[0], ast.Name)):
+            continue
+        v = a.value
+        if isinstance(v, ast.Call) and isinstance(v.func, ast.Attribute) and v.func.attr == "replace" and isinstance(v.func.value, ast.Name) and v.func.value.id in holders:
+            if len(v.args) != 2 or not all(isinstance(x, ast.Constant) and isinstance(x.value, str) for x in v.args):
+                raise AnalysisError(f"{fn.where(a)}: a text rewrite is not a replace of constants on the input: {norm(a)[:70]}")
+            if v.func.value.id != last:
+                raise AnalysisError(f"{fn.where(a)}: a text rewrite does not continue from the previous one: {norm(a)[:70]}")
+            chain.append((v.args[0].value, v.args[1].value))
+            holders.add(a.targets[0].id)
+            last = a.targets[0].id
+    pe = [c for c in ast.walk(fn.node) if isinstance(c, ast.Call) and norm(c.func) == "parse_expr" and c.args]
+    if len(pe) != 1 or not isinstance(pe[0].args[0], ast.Name) or pe[0].args[0].id != last:
+        raise AnalysisError(f"{fn.where()}: parse_expr is not handed the rewritten text")
+    return chain, last
+
+
 def rewrites(repo, res, t, uni):
     """C14-R7: parse_unyt_expr rewrites the text before it is parsed (constant str.replace steps: % -> percent,
     the degree signs -> names).  The chain is folded from the source and applied to every documented name that contains
@@ -269,17 +295,7 @@ def rewrites(repo, res, t, uni):
     r7 = res.rule("C14-R7", "the parser's text rewrites map every documented name onto a documented name of the same unit", floor=20)
     fn = repo.mod(PAR).func("parse_unyt_expr")
     res.fn(fn)
-    p0 = fn.params[0]
-    chain = []
-    for st in fn.body:
-        if isinstance(st, ast.Try):
-            break
-        for a in ast.walk(st):
-            if isinstance(a, ast.Assign) and norm(a.targets[0]) == p0 and isinstance(a.value, ast.Call) and isinstance(a.value.func, ast.Attribute) and a.value.func.attr == "replace":
-                c = a.value
-                if norm(c.func.value) != p0 or len(c.args) != 2 or not all(isinstance(x, ast.Constant) and isinstance(x.value, str) for x in c.args):
-                    raise AnalysisError(f"{fn.where(a)}: a text rewrite is not a replace of constants on the input: {norm(a)[:70]}")
-                chain.append((c.args[0].value, c.args[1].value))
+    chain, _final = rewrite_chain(fn)
     if len(chain) < 2:
         raise AnalysisError(f"{fn.where()}: the rewrite chain of parse_unyt_expr was not found")
 
